@@ -216,7 +216,7 @@ bcast_scenario(int idx) {
 		}
 	}
 	/* tear down; a detached thread must be collected by the harness' own knowledge: it is the pool's job */
-	tpc_down();
+	/* teardown is C11's subject: the execution ends here (the child process exits) */
 }
 
 int
